@@ -260,8 +260,9 @@ class Gen:
         stable = all(p[0][0] < 0 or (p[0] == (0, 0) and p[1] == 1) for p in poles)
         rep_complex = any(p[0][1] != 0 and p[1] > 1 for p in poles)
         deg2_not_under = degA == 2 and all(p[0][1] == 0 for p in poles)
+        deg2_via_num = degA < 2 and degB == 2          # Ratfun.degree == 2 although the denominator is first order
         return {'A': A, 'B': B, 'T': T, 'txt': txt, 'kind': kind, 'proper': proper, 'degA': degA, 'degB': degB,
-                'repeated_complex': rep_complex, 'degree2_not_underdamped': deg2_not_under,
+                'repeated_complex': rep_complex, 'degree2_not_underdamped': deg2_not_under, 'degree2_via_numerator': deg2_via_num,
                 'delayed': T != 0, 'stable_or_step': stable, 'maxmult': max(m for _, m in poles)}
 
 
@@ -396,10 +397,12 @@ def run(chk, replay=None):
         rec_terms = [{'A': [gq(c) for c in tm['A']], 'B': [gq(c) for c in tm['B']], 'T': fstr(tm['T']), 'txt': tm['txt'],
                       'kind': tm['kind'], 'proper': tm['proper'], 'delayed': tm['delayed'], 'maxmult': tm['maxmult'],
                       'stable_or_step': tm['stable_or_step'], 'repeated_complex': tm['repeated_complex'],
-                      'degree2_not_underdamped': tm['degree2_not_underdamped']} for tm in terms]
+                      'degree2_not_underdamped': tm['degree2_not_underdamped'],
+                      'degree2_via_numerator': tm.get('degree2_via_numerator', False)} for tm in terms]
         keybase = {'kind': tags, 'proper': all(tm['proper'] for tm in terms), 'delayed': any(tm['delayed'] for tm in terms),
                    'terms': len(terms), 'repeated_complex': any(tm['repeated_complex'] for tm in terms),
-                   'degree2_not_underdamped': any(tm['degree2_not_underdamped'] for tm in terms)}
+                   'degree2_not_underdamped': any(tm['degree2_not_underdamped'] for tm in terms),
+                   'degree2_via_numerator': any(tm.get('degree2_via_numerator', False) for tm in terms)}
         # ---- (a) the QRPO data of the real code through the verified checker (both residue methods)
         term_exprs = [lexpr(tm['txt']).sympy for tm in terms]
         qr = []
